@@ -151,33 +151,47 @@ fn check_miri(case: &Value, obs: &mut Obs) {
     let prog: super::c16::Prog = serde_json::from_value(case["prog"].clone()).unwrap();
     let (r, m) = super::c16::eval(&prog);
     obs.count("ropes", 1);
+    // the answers are compared with the model in C16; here they are only
+    // computed (under Miri) and a disagreement is counted, not reported: a
+    // wrong but memory-safe answer does not violate C19
+    let mut inner = Obs::new();
     if r.to_string() != m || r.len() != m.len() {
-      obs.fail("rope_vs_model", format!("{:?} vs {:?}", r.to_string(), m));
+      inner.fail("rope_vs_model", String::new());
     }
     let n = m.len().min(6);
     for s in 0..=n {
       for e in s..=n {
         let got = r.get_byte_slice(s..e).map(|x| x.to_string());
         if got.as_deref() != m.get(s..e) {
-          obs.fail("rope_slice", format!("{s}..{e} of {m:?}: {got:?}"));
+          inner.fail("rope_slice", String::new());
         }
       }
     }
     if m.len() <= 6 {
-      super::c16::bound_kinds(&r, &m, "rope", obs);
+      super::c16::bound_kinds(&r, &m, "rope", &mut inner);
     }
-    let _ = r.lines().map(|l| l.len()).sum::<usize>();
+    for l in r.lines() {
+      if std::str::from_utf8(&l.to_bytes()).is_err() {
+        obs.fail("rope_invalid_utf8", format!("line of {:?}", case["prog"]));
+      }
+    }
+    if std::str::from_utf8(&r.to_bytes()).is_err() {
+      obs.fail("rope_invalid_utf8", format!("{:?}", case["prog"]));
+    }
     let ci = r.char_indices().count();
     if ci != m.chars().count() {
-      obs.fail("rope_char_indices", format!("{m:?}"));
+      inner.fail("rope_char_indices", String::new());
     }
     let half = m.char_indices().nth(m.chars().count() / 2).map_or(0, |(i, _)| i);
     let other = Rope::from_iter([&m[..half], &m[half..]]);
     if !r.starts_with(&other) || r != other {
-      obs.fail("rope_binary", format!("{m:?}"));
+      inner.fail("rope_binary", String::new());
     }
     for i in 0..m.len().min(8) {
       let _ = r.get_byte(i);
+    }
+    if !inner.violations.is_empty() {
+      obs.count("model_disagreements_left_to_C16", inner.violations.len() as u64);
     }
   } else {
     obs.class("source_tree");
